@@ -212,6 +212,11 @@ CHECKS = {
 
 NOT_YET = {}
 
+EXTENSIONS = {
+    "X01": "spec/SecretEntry.tla - PIN / passphrase entry (token.Login, passprompt.Login with keyring, certloader passphrase loops through the file token), replayed on the real functions",
+}
+
+
 def main():
     props = [json.loads(l) for l in open(os.path.join(V, "properties.jsonl"))]
     checks, na = [], []
@@ -260,6 +265,10 @@ def main():
     for e, ids in sorted(engines.items()):
         m["engines"].append({"name": e, "path": "/verif/spec + /verif/harness + /verif/checks", "serves_properties": sorted(ids),
                              "kind_free_text": "TLA+ module(s) checked by TLC, bound to the code by behaviour replay and/or trace validation"})
+    # extension specifications: behaviour outside the listed properties (./check X.. ; evidence under evidence/ext/)
+    for x, what in sorted(EXTENSIONS.items()):
+        m["engines"].append({"name": x, "path": f"/verif/checks/{x}.py", "serves_properties": [],
+                             "kind_free_text": "extension (no listed property): " + what + f"; run ./check {x} --tier quick|thorough"})
     json.dump(m, open(os.path.join(V, "MANIFEST.json"), "w"), indent=1)
     print("MANIFEST.json:", len(checks), "checks,", len(na), "not_applicable")
 
